@@ -139,7 +139,13 @@ func parserPart(tier string, sh *vkit.Shard, p *vkit.Part) {
 					ref = r
 				}
 			}
-			for _, mode := range []string{"blocking", "nonblocking"} {
+			modes := []string{"blocking", "nonblocking"}
+			if b.client {
+				// client connections are always read by the poller: after the dialer's hand-over the
+				// session is the WebSocket connection and the HTTP parser is never touched again
+				modes = []string{"nonblocking"}
+			}
+			for _, mode := range modes {
 				runCase(respgen.FeedCase{Client: b.client, Stream: stream, CloseAfter: -1, Mode: mode})
 				for cut := 1; cut < n; cut++ {
 					runCase(respgen.FeedCase{Client: b.client, Stream: stream, Cuts: []int{cut}, CloseAfter: -1, Mode: mode})
